@@ -5,7 +5,7 @@ from lib import vf, srv
 
 ID = "C01"
 PROP_FILE = "Props/C01.v"
-CONSTS = ["message_delimiter"]
+CONSTS = ["message_delimiter", "truncated_cmp"]
 EXTRA_BINS = ("dcat", "dgrep")
 RULE = ("generated files: line lengths around 0,1,maxlen-1,maxlen,maxlen+1,2*maxlen and around 32 KiB / 64 KiB, with and "
         "without final newline, empty lines, CRLF, all byte values with raised weight on 0x0A 0xAC 0x2E 0x7C 0x00 0xC2 0xE2, "
